@@ -224,11 +224,29 @@ def clause_inventory(case, cfg, obs, prefix, els, with_charge):
         per_event[q] = sum(w[c] * solver_slack(max(abs(rows[(c, t)][q]) for t in steps)) for c in w)
     zq = [(q, G.ZABS.get(q.split("_", 1)[1], 1)) for q in quantities if q.split("_", 1)[1] not in ("H", "O")]
     per_event_cb = sum(z * per_event[q] for q, z in zq)
+    # known finding stagnant-exchange-frozen-water-ratio: the first-order exchange factors are built once from the water
+    # masses at the start (transport.cpp, "Define C_m = (1 - mix_f_m) * C_m0 + mix_f_m * C_im0"); they conserve moles only
+    # while the water-mass ratio of every mobile/stagnant pair stays at the ratio they were built for.  Whatever changes a
+    # water mass (reactions of solids: 1e-6; mixing of solutions of different pH: 1e-9) makes each mixing run create or
+    # destroy up to delta * (moles of the pair).  The trigger cannot be excluded through the input alone, so the
+    # mechanism's own bound is added per mixing run (delta = observed deviation of the water ratio; 0 => strict).
+    # The registered known-finding replay sets "strict_stagnant_exchange" and is checked without it.
+    per_mix = {q: 0.0 for q in quantities}
+    s_ = case["stag"]
+    if s_ is not None and s_["mode"] == "exch" and not cfg["md_on"] and not case.get("strict_stagnant_exchange"):
+        n = case["n"]
+        for i in range(n):
+            cm, ci = i + 1, n + 2 + i
+            r0 = G.stag_water(case, i) / case["water"][i]
+            delta = max(abs(rows[(ci, t)]["water"] / rows[(cm, t)]["water"] / r0 - 1.0) for t in steps)
+            for q in quantities:
+                per_mix[q] += delta * (w[cm] * max(abs(rows[(cm, t)][q]) for t in steps) + w[ci] * max(abs(rows[(ci, t)][q]) for t in steps))
+    per_mix_cb = sum(z * per_mix[q] for q, z in zq)
     for t in steps[1:]:
         nev = events(obs, t)
         for q in quantities:
             ref = max(abs(base[q]), 1e-20)
-            tol = TOL_INV * ref + 10 * CONV_TOL * ref + nev * per_event[q]
+            tol = TOL_INV * ref + 10 * CONV_TOL * ref + nev * per_event[q] + t * max(obs["mixruns"], 1) * per_mix[q]
             dev = abs(inv[t][q] - base[q])
             worst = max(worst, dev / ref)
             if dev > tol:
@@ -237,7 +255,7 @@ def clause_inventory(case, cfg, obs, prefix, els, with_charge):
                                     q, base[q], t, inv[t][q], dev / ref, TOL_INV, nev, tol / ref))
         if with_charge:
             ref = max(base["zs"], 1e-20)
-            tol = TOL_INV * ref + 10 * CONV_TOL * ref + nev * per_event_cb
+            tol = TOL_INV * ref + 10 * CONV_TOL * ref + nev * per_event_cb + t * max(obs["mixruns"], 1) * per_mix_cb
             dev = abs(inv[t]["cb"] - base["cb"])
             if dev > tol:
                 raise Violation(name + "_charge", "column charge changed: step 0 %.17g eq, step %d %.17g eq (%.3g of sum|z|m = %.6g; allowed %.3g)" % (
